@@ -16,6 +16,7 @@ RULE = ('quick: every outline AST with <=4 nodes and nesting <=2 over {step, if/
         'length <=4 x step-return scripts (all None; one stopping value from {0, "", False, 7} at each of the first 3 steps), de-duplicated by '
         'the script prefix actually consumed (exhaustive for that scope); thorough adds 5-node ASTs (sampled) and random ASTs to depth 4 with '
         'scripts to length 12; non-trivial when at least one predicate or >=2 calls were made')
+RULE += ('; also: steps that register awaitables, a description of the outline asked for first, decorated step functions, chains with a required output nobody emits')
 ASSUMPTIONS = ['predicates return real booleans', 'ToContext returns are C10\'s business', 'interpreter written from the property statement']
 REQUIRED = ['runs', 'ended/return', 'ended/value', 'ended/end', 'nodes/if', 'nodes/while', 'nodes/ret', 'calls_compared', 'falsy_stop_values', 'steps_registering_awaitables', 'value_with_awaitable', 'described_first', 'required_output_missing', 'decorated_steps_called']
 EXHAUSTIVE = {'quick': True, 'thorough': False}
